@@ -201,7 +201,9 @@ def strategy(draw):
   bindings = []
   if pool:
     for i in range(draw(st.integers(0, 8))):
-      bindings.append([draw(st.sampled_from(SCOPES)), draw(st.sampled_from(pool)), 'B%d' % i])
+      # falsy bound values too: a binding of None / 0 / '' is still a binding
+      bindings.append([draw(st.sampled_from(SCOPES)), draw(st.sampled_from(pool)),
+                       draw(st.sampled_from(['B%d' % i, 'B%d' % i, None, 0, '', False, []]))])
   positional = shape['pos'] + shape['dflt']
   n_pos = draw(st.integers(0, len(positional) + (2 if shape['varargs'] else 0)))
   val = lambda i: st.sampled_from([REQ, REQ, 'C%d' % i, 'C%d' % i, 'C%d' % i])
@@ -245,7 +247,8 @@ def sweep(tier):
               for b in range(len(named) + 1):
                 for bound in itertools.combinations(named, b):
                   cases.append({'shape': shape, 'entries': [],
-                                'bindings': [['', p, 'B:' + p] for p in bound],
+                                'bindings': [['', p, None if (len(cases) % 5 == 0) else 'B:' + p]
+                                             for p in bound],
                                 'args': list(pos_vals), 'kwargs': kwargs})
   if tier != 'thorough':
     cases = cases[::3]
